@@ -12,7 +12,7 @@ import (
 func init() {
 	Drivers["C13"] = driveC13
 	Levels["C13"] = "exploration"
-	Rules["C13"] = "one run = k=2..6 virtual goroutines x <=4 operations each over values built before they start: 1-3 shared Resolved (keyword-rich, multi-document, dynamic-scope and defaults worlds), the shared Schema trees, shared read-only instances and one shared ForOptions; operations Validate / ApplyDefaults(private instance, also struct holders) / Marshal / Unmarshal / CloneSchemas / Resolve(private simulated Loader) / ForType(shared options) / Equal; a seeded scheduler decides who runs at every operation boundary and plants pre-emptions inside operations (density 0-3; in a third of the runs all goroutines hammer one shared Resolved with Validate/ApplyDefaults under dense pre-emption), with memo-table miss injection and cold or warm caches; executed in a plain and in a -race build. Oracles: no race report with a jsonschema frame in both stacks; every result equals the result of the same operation run sequentially on an independently built identical world; a sequential re-run on the shared values after the join still matches. Non-trivial = >=1 pre-emption inside an operation AND two goroutines operate on the same shared value. Distinct = hash(world, operations) x goroutine-schedule hash."
+	Rules["C13"] = "one run = k=2..6 virtual goroutines x <=4 operations each over values built before they start: 1-3 shared Resolved (keyword-rich, multi-document, dynamic-scope and defaults worlds), the shared Schema trees, shared read-only instances and one shared ForOptions; operations Validate / ApplyDefaults(private instance, also struct holders) / Marshal / Unmarshal / CloneSchemas / Resolve(private simulated Loader) / ForType(shared options) / Equal; a seeded scheduler decides who runs at every operation boundary and plants pre-emptions inside operations (density 0-3; in a third of the runs all goroutines hammer one shared value with one family of operations - Validate/ApplyDefaults, Marshal/Clone/Unmarshal, ForType, or Resolve - under dense pre-emption), with memo-table miss injection and cold or warm caches; executed in a plain and in a -race build. Oracles: no race report with a jsonschema frame in both stacks; every result equals the result of the same operation run sequentially on an independently built identical world; a sequential re-run on the shared values after the join still matches. Non-trivial = >=1 pre-emption inside an operation AND two goroutines operate on the same shared value. Distinct = hash(world, operations) x goroutine-schedule hash."
 	Assumptions["C13"] = append([]string{
 		"the hand-off between virtual goroutines uses raw pipe system calls from //go:norace code, so the execution is serial and repeatable while the race detector still sees the library's accesses as concurrent; the detector is only as good as its shadow memory (4 cells per 8 bytes)",
 		"a race report is attributed to the library only if both stacks contain a frame of package jsonschema; any other report is a harness bug and makes the check exit 2",
@@ -165,7 +165,7 @@ func genC13World(c *Ctx) *c13world {
 	ns := 1 + c.W(3)
 	for i := 0; i < ns; i++ {
 		s := &c13schema{}
-		switch c.W(6) {
+		switch c.W(7) {
 		case 0:
 			s.Kind = "universe"
 			s.Uni = GenUniverse(c, UniOpts{Draft7: c.W(4) == 0, MaxDocs: 3})
@@ -196,6 +196,13 @@ func genC13World(c *Ctx) *c13world {
 			d := GenDefaultsWorld(c)
 			s.Text = d.Text
 			s.Insts = d.Insts
+		case 4:
+			s.Kind = "wide"
+			doc := GenWideDoc(c)
+			s.Text = JSON(doc)
+			for j := 0; j < 3; j++ {
+				s.Insts = append(s.Insts, GenInstanceFor(c, doc, 3))
+			}
 		default:
 			s.Kind = "rich"
 			doc := GenSchemaDoc(c, c.W(5) == 0)
@@ -219,6 +226,15 @@ func genC13World(c *Ctx) *c13world {
 	return w
 }
 
+// focusFamilies: in focus mode all goroutines draw their operations from one family and apply
+// them to one shared value, so that calls of the same kind overlap.
+var focusFamilies = [][]int{
+	{0, 0, 0, 1, 8}, // Validate / ApplyDefaults on one Resolved
+	{2, 2, 4, 3},    // Marshal / CloneSchemas / Unmarshal of one Schema tree
+	{6},             // ForType with the shared options
+	{5, 5, 0},       // Resolve of one shared (fresh) Schema tree, and Validate
+}
+
 type c13res struct {
 	d string
 	r OpResult
@@ -233,12 +249,21 @@ func driveC13(c *Ctx) {
 	// so that calls with different per-call state overlap.
 	focus := c.W(3) == 0
 	focusS := c.W(len(w.schemas))
+	focusFam := []int{0, 0, 0, 1, 2, 3}[c.W(6)]
+	if focusFam == 1 {
+		for i, sc := range w.schemas {
+			if sc.Kind == "wide" {
+				focusS = i // Marshal/Clone/Unmarshal of the widest tree
+			}
+		}
+	}
 	for g := range ops {
 		n := 1 + c.W(4)
 		for i := 0; i < n; i++ {
 			op := c13op{Kind: []int{0, 0, 0, 1, 2, 3, 4, 5, 6, 6, 7, 8, 1}[c.W(13)], S: c.W(len(w.schemas)), I: c.W(8), J: c.W(8)}
 			if focus {
-				op.Kind = []int{0, 0, 0, 1, 8}[c.W(5)]
+				fam := focusFamilies[focusFam]
+				op.Kind = fam[c.W(len(fam))]
 				op.S = focusS
 			}
 			ops[g] = append(ops[g], op)
@@ -355,7 +380,7 @@ func driveC13(c *Ctx) {
 		c.Probe("world:" + s.Kind)
 	}
 	if focus {
-		c.Probe("focus-mode:" + w.schemas[focusS].Kind)
+		c.Probe(fmt.Sprintf("focus-mode:family%d:%s", focusFam, w.schemas[focusS].Kind))
 	}
 	if st.CacheMissesInj > 0 {
 		c.Probe("memo-miss-injected")
